@@ -28,7 +28,6 @@ pub fn extend(v: &mut Vec<(&'static str, crate::Body)>) {
     v.extend_from_slice(c12::REG);
     v.extend_from_slice(c12::REG2);
     v.extend_from_slice(c13::REG);
-    v.extend_from_slice(c13::REG2);
     v.extend_from_slice(c14::REG);
     v.extend_from_slice(c15::REG);
     v.extend_from_slice(c16::REG);
